@@ -241,6 +241,8 @@ def build_harness():
     if REPO != "/repo":
         tmp = os.path.join(WORKROOT, "harness_src_%d" % os.getpid())
         shutil.rmtree(tmp, ignore_errors=True)
+        import atexit
+        atexit.register(lambda: shutil.rmtree(tmp, ignore_errors=True))
         shutil.copytree(src, tmp)
         open(os.path.join(tmp, "go.mod"), "w").write(mod.replace("=> /repo", "=> " + REPO))
         src = tmp
